@@ -302,7 +302,9 @@ impl<S: Read> Master<S> {
             self.read_input(&mut reader, &mut index, process.as_mut())?;
         } else {
             for file in self.cli.files.clone() {
-                self.read_file(&file, &mut index, process.as_mut())?;
+                if self.read_file(&file, &mut index, process.as_mut())? == ProcessDesision::Break {
+                    break;
+                }
             }
         }
         process.complete()?;
@@ -310,25 +312,32 @@ impl<S: Read> Master<S> {
         Ok(())
     }
 
-    fn read_file(&self, file: &PathBuf, index: &mut u64, process: &mut dyn Process) -> Result<()> {
+    fn read_file(
+        &self,
+        file: &PathBuf,
+        index: &mut u64,
+        process: &mut dyn Process,
+    ) -> Result<ProcessDesision> {
         assert!(file.exists(), "File {file:?} not exists");
         if file.is_dir() {
             for entry in read_dir(file)? {
                 let path = entry?.path();
-                self.read_file(&path, index, process)?;
+                if self.read_file(&path, index, process)? == ProcessDesision::Break {
+                    return Ok(ProcessDesision::Break);
+                }
             }
+            Ok(ProcessDesision::Continue)
         } else {
             let mut reader = from_file(file)?;
-            self.read_input(&mut reader, index, process)?;
+            self.read_input(&mut reader, index, process)
         }
-        Ok(())
     }
     fn read_input<R: Read>(
         &self,
         reader: &mut Reader<R>,
         index: &mut u64,
         process: &mut dyn Process,
-    ) -> Result<()> {
+    ) -> Result<ProcessDesision> {
         let mut in_file_index: u64 = 0;
         loop {
             let started = reader.where_is_unused_input();
@@ -353,7 +362,7 @@ impl<S: Read> Master<S> {
                     );
                     match process.process(context)? {
                         ProcessDesision::Break => {
-                            break Ok(());
+                            break Ok(ProcessDesision::Break);
                         }
                         ProcessDesision::Continue => {
                             in_file_index += 1;
@@ -362,7 +371,7 @@ impl<S: Read> Master<S> {
                     }
                 }
                 Ok(None) => {
-                    return Ok(());
+                    return Ok(ProcessDesision::Continue);
                 }
                 Err(e) => {
                     if !e.can_recover() {
